@@ -30,8 +30,29 @@ class Lane:
         self.fields = fields  # list of (dst_off, width, payload) payload = ('dim', j) index j of a dropped last dim | ('all',)
 
 
+class NeedChoice(Exception):
+    """a memory-layout question (`t.is_contiguous()`) was asked beyond the answers supplied: the caller re-runs with one more answer, both ways"""
+
+
+def run_all(make, limit=4):
+    """Run `make(choices)` (returning an Interp) for every combination of answers to the memory-layout questions it meets; yields (choices, result).
+    The logical layout of a tensor says nothing about its strides: every answer is an instance."""
+    todo = [[]]
+    while todo:
+        ch = todo.pop()
+        it = make(ch)
+        try:
+            yield ch, it.run()
+        except NeedChoice:
+            if len(ch) >= limit:
+                raise Unknown("too many memory-layout questions")
+            todo.append(ch + [True])
+            todo.append(ch + [False])
+
+
 class Interp:
-    def __init__(self, fn, args, consts=None):
+    def __init__(self, fn, args, consts=None, choices=None):
+        self.choices, self.pos = list(choices or []), 0
         from .core import canon_function
         fn = canon_function(fn)
         self.fn = fn
@@ -342,6 +363,12 @@ class Interp:
             if name == "reshape":
                 return Lane(reshape(recv.t, self.shape_args(args)), recv.fields)
             raise Unknown(f"method {name} on bit-level value")
+        if isinstance(recv, ATensor) and name == "is_contiguous":
+            # a question about strides, which a layout does not carry: both answers are explored by the caller (run_all)
+            if self.pos >= len(self.choices):
+                raise NeedChoice()
+            self.pos += 1
+            return self.choices[self.pos - 1]
         if isinstance(recv, ATensor):
             if name in ("reshape", "view"):
                 sizes = self.shape_args(args)
